@@ -750,7 +750,20 @@ class VarsManager(object):
                 for name_r in self.complex_vars[name]:
                     self.variables[name_r[:-1] + "i"].assign_add(np.pi)
             else:
-                p.assign_add(np.pi)
+                # a shared radius (set_share_r) changes sign for all its owners
+                shared = [name + "r"]
+                for l in self.same_list:
+                    if name + "r" in l:
+                        shared = l
+                        break
+                done = []
+                for name_r in shared:
+                    if name_r[:-1] not in self.complex_vars:
+                        continue
+                    p_i = self.variables[name_r[:-1] + "i"]
+                    if all(p_i is not j for j in done):
+                        p_i.assign_add(np.pi)
+                        done.append(p_i)
         p.assign(self._std_polar_angle(p))
 
     def std_polar_all(self):  # std polar expression: r>0, -pi<p<pi
